@@ -24,7 +24,7 @@ Definition nv_fd : @fdef Z :=
                       (EBin BAdd (ECall "f" [EBin BSub (EIdent "n") (EScalar 1%Z)]) (EIdent "y"));
      fd_nglob := 1; fd_nforeign := 0 |}.
 Definition nv_W : @world Z :=
-  {| w_globals := [("x", VQ 2%Z)]; w_fns := [("f", nv_fd)]; w_foreign := []; w_structs := []; w_last := None |}.
+  {| w_globals := [("x", VQ 2%Z)]; w_fns := [("f", nv_fd)]; w_foreign := []; w_structs := []; w_last := None; w_units := [] |}.
 
 Lemma nv_cenv_rel : cenv_rel zops nv_C nv_W nv_ce 1 1 0.
 Proof.
@@ -35,6 +35,8 @@ Proof.
     destruct (String.eqb "print" x); [reflexivity|].
     destruct (String.eqb "assert" x); [reflexivity|].
     destruct (String.eqb "assert_eq" x); reflexivity.
+  - simpl in *. congruence.
+  - simpl in *. congruence.
 Qed.
 
 Lemma nv_RelW : RelW zops nv_C nv_W.
